@@ -1148,16 +1148,22 @@ def hash_args_eval(
             var_param_name = param.name
             break
 
+    # Positional arguments bind to the positional parameters in order (never to keyword-only
+    # parameters or **kwargs); additional arguments are the variadic arguments.
+    pos_names = [
+        param.name
+        for param in sig.parameters.values()
+        if param.kind in (param.POSITIONAL_ONLY, param.POSITIONAL_OR_KEYWORD)
+    ]
+
     # Filter args to remove config_args.
     args2 = [
         arg_value
-        for arg_name, arg_value in zip(sig.parameters, args)
+        for arg_name, arg_value in zip(pos_names, args)
         if keep_arg(arg_name, arg_value)
     ]
-
-    # Additional arguments are assumed to be variadic arguments.
     args2.extend(
-        arg_value for arg_value in args[len(sig.parameters) :] if var_param_name not in config_args
+        arg_value for arg_value in args[len(pos_names) :] if keep_arg(var_param_name, arg_value)
     )
 
     # Filter kwargs.
